@@ -1,40 +1,60 @@
 import Nstd.Sync.Model
-/-! Thread: the handle kept in a Thread object always names a thread that was really created (inductive invariant). -/
+/-! Thread: the handle kept in a Thread object always names a thread that was really created, and the thread runs the
+    function that the successful start() handed over (inductive invariant over `Reach`). -/
 namespace Nstd.Sync.Thr
 
-/-- library content of start/join/~Thread: `thread` is set exactly by a successful pthread_create and cleared only after
-    the join, so an attached object always refers to an existing thread; a thread never goes back to "not created" -/
-def Inv (s : St) : Prop := ∀ j, s.handle j = true → s.status j ≠ .none
+/-- library content of start (both overloads) / join / ~Thread:
+    * `thread` is set exactly by a successful pthread_create and cleared only after the join, so an attached object
+      always refers to an existing thread, and a thread that has not begun yet belongs to an attached object;
+    * the functor stored by the member-function overload is not touched while the object is attached, so a thread that
+      has not yet read it will read the one its start() stored (`started`);
+    * a running thread executes the body `started` names, a finished one has returned `val` of it. -/
+structure Inv (val : Nat → Nat) (s : St) : Prop where
+  attached : ∀ j, s.handle j = true → s.status j ≠ .none
+  createdAttached : ∀ j b, s.status j = .created b → s.handle j = true
+  viaFunc : ∀ j, s.status j = .created none → s.started j = some (s.func j)
+  direct : ∀ j k, s.status j = .created (some k) → s.started j = some k
+  running : ∀ j k, s.status j = .running k → s.started j = some k
+  finished : ∀ j v, s.status j = .finished v → ∃ k, s.started j = some k ∧ v = val k
 
-theorem inv_step {s s' : St} {t : Tid} {a : Act} (h : Inv s) (hs : step s t a = some s') : Inv s' := by
-  unfold Inv at *
+theorem inv_init (val : Nat → Nat) (cfail : Nat) : Inv val (init cfail) := by
+  constructor <;> intro j <;> simp [init] <;> intros <;> grind
+
+theorem inv_step {val : Nat → Nat} {s s' : St} {t : Tid} {a : Act} (h : Inv val s) (hs : step val s t a = some s') :
+    Inv val s' := by
+  obtain ⟨h1, h2, h3, h4, h5, h6⟩ := h
   cases a with
   | begin_ =>
     simp only [step] at hs
-    split at hs <;> simp at hs
-    subst hs; intro j hj; grind [upd]
-  | exit v =>
+    split at hs <;> simp at hs <;> subst hs <;>
+      (refine ⟨?_, ?_, ?_, ?_, ?_, ?_⟩ <;> intros <;> grind [upd])
+  | exit =>
     simp only [step] at hs
-    split at hs <;> simp at hs
-    subst hs; intro j hj; grind [upd]
+    split at hs
+    · split at hs <;> simp at hs
+      subst hs
+      refine ⟨?_, ?_, ?_, ?_, ?_, ?_⟩ <;> intros <;> grind [upd]
+    · simp at hs
   | api a =>
     cases a with
-    | tick q => simp [step] at hs; subst hs; exact h
+    | tick q => simp [step] at hs; subst hs; exact ⟨h1, h2, h3, h4, h5, h6⟩
     | call op =>
       simp only [step] at hs
       split at hs
-      · cases op <;> (simp only [] at hs; split at hs <;> simp [done] at hs <;> subst hs <;> exact h)
+      · cases op <;> (simp only [] at hs; split at hs <;> simp [done] at hs <;> subst hs <;>
+          (refine ⟨?_, ?_, ?_, ?_, ?_, ?_⟩ <;> intros <;> grind [upd]))
       · simp at hs
     | run alt =>
       simp only [step] at hs
       cases hp : s.pc t <;> simp only [hp] at hs
       all_goals
         try simp only [done] at hs
-        (repeat' split at hs) <;> simp at hs <;> (try subst hs) <;> (intro j hj; grind [upd])
+        (repeat' split at hs) <;> simp at hs <;> (try subst hs) <;>
+          (refine ⟨?_, ?_, ?_, ?_, ?_, ?_⟩ <;> intros <;> grind [upd, Option.getD])
 
-theorem inv_reach {cfail : Nat} {s : St} (h : Reach cfail s) : Inv s := by
+theorem inv_reach {val : Nat → Nat} {cfail : Nat} {s : St} (h : Reach val cfail s) : Inv val s := by
   induction h with
-  | init => intro j hj; simp [init] at hj
+  | init => exact inv_init _ _
   | step _ hs ih => exact inv_step ih hs
 
 end Nstd.Sync.Thr
